@@ -536,3 +536,141 @@ func escapedIdentifierEndGuarded(p *Prog, rule string) *RuleResult {
 	r.Floor(1)
 	return r
 }
+
+// ---------------------------------------------------------------------------------------------
+// C13/R11 (= C01/R9) dot-after-expression-guarded.
+//
+// `1.toString` is a syntax error (the dot belongs to the number), so the printer remembers where a
+// number that needs it ended (needSpaceBeforeDot) and the property-access printer inserts a space
+// when the `.` would directly follow. A member access can be printed by several arms of printExpr
+// (EDot; EIndex with a private name, a mangled property name, an inlined enum string). Rule: on
+// every path from the recursive printExpr call that prints the target to a `p.print(".")`, the
+// marker needSpaceBeforeDot is consulted.
+func dotAfterExpressionGuarded(p *Prog, rule string) *RuleResult {
+	r := NewRule(rule, "every `.` that the JS printer prints directly after a target expression is preceded by the needSpaceBeforeDot test (`1.x` is a syntax error; `1 .x` is a member access)")
+	fn := p.FindFunc("js_printer.(*printer).printExpr")
+	if !r.Anchor("js_printer.(*printer).printExpr", fn != nil) {
+		return r
+	}
+	n := 0
+	var allBlocks []*ssa.BasicBlock
+	for _, f := range p.ModuleFuncs() {
+		if pkgPathOf(f) == modPath+"/internal/js_printer" {
+			allBlocks = append(allBlocks, f.Blocks...)
+		}
+	}
+	sort.SliceStable(allBlocks, func(i, j int) bool { return firstPos(allBlocks[i]) < firstPos(allBlocks[j]) })
+	for _, b := range allBlocks {
+		for idx, in := range b.Instrs {
+			c, ok := in.(*ssa.Call)
+			if !ok || !strings.HasSuffix(calleeFullName(c), "js_printer.printer).print") || len(c.Call.Args) != 2 {
+				continue
+			}
+			if s, ok := constString(c.Call.Args[1]); !ok || s != "." {
+				continue
+			}
+			// backwards: a load of needSpaceBeforeDot ends a path well; a recursive printExpr call ends it badly
+			type pt struct {
+				b *ssa.BasicBlock
+				i int
+			}
+			seen := map[*ssa.BasicBlock]bool{}
+			work := []pt{{b, idx}}
+			type knownFact struct {
+				field string
+				k     int64
+				eq    bool
+			}
+			var known []knownFact
+			for _, f := range factsAt(b) {
+				if fld, k, eq, ok := fieldConstTest(f.Cond); ok {
+					known = append(known, knownFact{fld, k, eq == f.True})
+				}
+			}
+			bad := token.NoPos
+			reachedTarget := false
+			for len(work) > 0 && bad == token.NoPos {
+				w := work[len(work)-1]
+				work = work[:len(work)-1]
+				stop := false
+				for i := w.i - 1; i >= 0 && !stop; i-- {
+					switch x := w.b.Instrs[i].(type) {
+					case *ssa.FieldAddr:
+						if fieldAddrName(x) == "needSpaceBeforeDot" {
+							stop = true
+						}
+					case *ssa.Call:
+						if x.Call.StaticCallee() == fn {
+							bad = x.Pos()
+							reachedTarget = true
+							stop = true
+						} else if strings.HasSuffix(calleeFullName(x), "js_printer.printer).print") {
+							// something else was printed in between: the dot does not follow the target directly
+							stop = true
+						}
+					}
+				}
+				if stop {
+					continue
+				}
+				for _, pr := range w.b.Preds {
+					if seen[pr] {
+						continue
+					}
+					// prune edges that contradict what is known at the print (same field compared with the same constant)
+					if len(pr.Instrs) > 0 && len(pr.Succs) == 2 {
+						if ifi, ok := pr.Instrs[len(pr.Instrs)-1].(*ssa.If); ok {
+							if f, k, eq, ok := fieldConstTest(ifi.Cond); ok {
+								taken := pr.Succs[0] == w.b // true edge
+								holdsEq := eq == taken       // on this edge: field == k ?
+								contradiction := false
+								for _, kf := range known {
+									if kf.field == f && kf.k == k && kf.eq != holdsEq {
+										contradiction = true
+									}
+								}
+								if contradiction {
+									continue
+								}
+							}
+						}
+					}
+					seen[pr] = true
+					work = append(work, pt{pr, len(pr.Instrs)})
+				}
+			}
+			_ = reachedTarget
+			n++
+			r.Instances++
+			key := fmt.Sprintf("printExpr prints `.` #%d (%s)", n, p.Pos(c.Pos()))
+			key = fmt.Sprintf("%s prints `.` #%d", FuncName(b.Parent()), n)
+			if bad == token.NoPos {
+				r.OK(key, true, "every path from the target's printExpr call consults needSpaceBeforeDot (or prints something else first)")
+			} else {
+				r.Fail(key, p.Pos(c.Pos()), "a `.` is printed directly after the target expression (printed at "+p.Pos(bad)+") without consulting needSpaceBeforeDot: when the target is a number the output is `1.x` / `1.#x`, a syntax error, where `1 .x` was meant")
+			}
+		}
+	}
+	if !r.Anchor("prints of `.` in the JS printer", n >= 2) {
+		return r
+	}
+	r.Floor(2)
+	return r
+}
+
+// fieldConstTest: cond is `<load of field F> == K` (eq=true) or `!= K` (eq=false).
+func fieldConstTest(cond ssa.Value) (field string, k int64, eq bool, ok bool) {
+	bo, isB := cond.(*ssa.BinOp)
+	if !isB || (bo.Op != token.EQL && bo.Op != token.NEQ) {
+		return "", 0, false, false
+	}
+	kv, isK := constInt(bo.Y)
+	if !isK {
+		return "", 0, false, false
+	}
+	_, name, isF := loadedField(bo.X)
+	if !isF {
+		return "", 0, false, false
+	}
+	return name, kv, bo.Op == token.EQL, true
+}
